@@ -258,9 +258,11 @@ def run (s : WI) (ops : List Op) : WI := ops.foldl step s
 
 `WithItemsTask._schedule_actions` starts with `_get_with_items_values()` (the `with-items` expression:
 every variable must evaluate to an iterable, all of the same length — else `InputException`; the
-expression itself may fail) and `_get_input_dicts()` (the action input of EVERY index of the portion
-`_get_next_indexes()`, evaluated BEFORE the first action of the portion is scheduled); both are
-outside the `try` of the scheduling loop, so a failure leaves `_schedule_actions` as an exception and
+expression itself may fail) and `_get_input_dicts()` + `validate_input` (the action input of EVERY
+index that the round will process when the task is (re)started — repo fix "a with-items task checks
+the inputs of all items before it starts any of them" — and of every index of the portion
+`_get_next_indexes()` otherwise, evaluated and validated against the action BEFORE the first action
+is created); both are outside the `try` of the scheduling loop, so a failure leaves `_schedule_actions` as an exception and
 `task_handler.run_task` / `_on_action_complete` / `continue_task` answer with `force_fail_task`:
 `task.set_state(ERROR)` (no `Task.complete`, hence no retry policy) + `force_fail_workflow`; whatever
 the transaction had written before (`_prepare_runtime_context`, `_increase_capacity`,
@@ -276,12 +278,19 @@ structure EvalSpec where
   itemsOk : Bool := true
   /-- the `concurrency` value is a non-negative integer -/
   concOk : Bool := true
-  /-- the item indexes whose action input fails to evaluate -/
+  /-- the item indexes whose action input fails to evaluate or is refused by the action -/
   badInputs : List Nat := []
   deriving DecidableEq, Repr
 
-/-- `_get_input_dicts` raises: the input of some index of the next portion fails to evaluate -/
-def inputFails (e : EvalSpec) (s : WI) : Bool := (nextIndexes s).any fun i => e.badInputs.contains i
+/-- the indexes whose inputs `_schedule_actions` evaluates and validates before it creates anything
+    (`_get_input_dicts(all_items=new_round)` + `validate_input`): when the task is (re)started —
+    first run or rerun, `_is_new()`: `rt['with_items']` was absent — ALL indexes still to be
+    processed (`indices`, not cut to the capacity), otherwise the next portion -/
+def evalIndexes (newRound : Bool) (s : WI) : List Nat := if newRound then indices s else nextIndexes s
+
+/-- the evaluation / validation of the input of one of those indexes fails -/
+def inputFails (e : EvalSpec) (newRound : Bool) (s : WI) : Bool :=
+  (evalIndexes newRound s).any fun i => e.badInputs.contains i
 
 /-- `force_fail_task`: `set_state(ERROR)`, no policies -/
 def failTask (s : WI) : WI := { s with tstate := .error }
@@ -290,7 +299,7 @@ def failTask (s : WI) : WI := { s with tstate := .error }
     portion, and only then the scheduling loop -/
 def scheduleEval (e : EvalSpec) (s : WI) : WI :=
   if !e.itemsOk then failTask s
-  else if inputFails e (prepare s) then failTask (prepare s)
+  else if inputFails e (!s.prepared) (prepare s) then failTask (prepare s)
   else scheduleActions s
 
 /-- `WithItemsTask.on_action_complete` -/
